@@ -6,6 +6,7 @@ import (
 	"sort"
 	"strings"
 	"sync"
+	"unicode"
 
 	"golang.org/x/tools/go/ssa"
 )
@@ -67,9 +68,77 @@ func checkDiscovered(got, occurrences []string) string {
 		seen[g] = true
 	}
 	if fmt.Sprint(foldUnique(got)) != fmt.Sprint(foldUnique(occurrences)) {
-		return fmt.Sprintf("reported %q; the identifiers in variable position, in order of first occurrence, are %q", got, occurrences)
+		kw := ""
+		for _, g := range got {
+			isOcc := false
+			for _, o := range occurrences {
+				isOcc = isOcc || strings.EqualFold(o, g)
+			}
+			if gxKeywords[strings.ToUpper(g)] && !isOcc {
+				kw = fmt.Sprintf(" - %q is a keyword of the language in any letter case, never a variable", g)
+			}
+		}
+		return fmt.Sprintf("reported %q; the identifiers in variable position, in order of first occurrence, are %q%s", got, occurrences, kw)
 	}
 	return ""
+}
+
+// refIdentifiers: the identifiers in variable position of a token string, in order of occurrence, as the
+// reference grammar places them; ok=false when the string is no sentence.
+func refIdentifiers(ls []lexeme) (names []string, ok bool) {
+	acc, rpn := gxReference(ls)
+	if !acc {
+		return nil, false
+	}
+	var cols []int
+	for _, t := range rpn {
+		if strings.HasPrefix(t, "Variable@") {
+			var col int
+			fmt.Sscanf(t, "Variable@%d", &col)
+			cols = append(cols, col)
+		}
+	}
+	sort.Ints(cols)
+	for _, col := range cols {
+		names = append(names, ls[col-1].text)
+	}
+	return names, true
+}
+
+// namexKeywordSentences: every keyword of the language, in upper, lower, capitalised and alternating letter
+// case, in each position the grammar gives it (operator, second word of a two-word operator, operand), next
+// to real identifiers: "never keywords" holds for each of them in whatever case it is written.
+func namexKeywordSentences() []string {
+	frames := map[string][]string{
+		"AND":   {"x § y", "x § y § Z"},
+		"OR":    {"x § y", "f ( x § y ) § z"},
+		"XOR":   {"x § y", "x § y § X"},
+		"NOT":   {"§ x", "x AND § y", "x § LIKE y", "x § IN y", "x IS § NULL"},
+		"LIKE":  {"x § y", "x NOT § y"},
+		"IS":    {"x § NULL", "x § NOT NULL AND y"},
+		"IN":    {"x § y", "x NOT § y"},
+		"NULL":  {"x IS §", "x IS NOT § OR y", "x = §", "f ( § , y )"},
+		"TRUE":  {"x = §", "§ AND y", "f ( § , y )", "x [ § ]", "§"},
+		"FALSE": {"x = §", "§ OR y", "f ( y , § )", "x [ § ]", "§"},
+	}
+	var kws []string
+	for k := range frames {
+		kws = append(kws, k)
+	}
+	sort.Strings(kws)
+	var out []string
+	for _, kw := range kws {
+		alt := []rune(strings.ToLower(kw))
+		for i := 1; i < len(alt); i += 2 {
+			alt[i] = unicode.ToUpper(alt[i])
+		}
+		for _, form := range []string{kw, strings.ToLower(kw), kw[:1] + strings.ToLower(kw[1:]), string(alt)} {
+			for _, f := range frames[kw] {
+				out = append(out, strings.ReplaceAll(f, "§", form))
+			}
+		}
+	}
+	return out
 }
 
 type nameVerdicts struct {
@@ -126,6 +195,13 @@ func (c *Ctx) namexRun() *nameVerdicts {
 			c.namexFoldPairs(pm, part, 2, note)
 		}()
 	}
+	wg.Add(1)
+	go func() {
+		defer wg.Done()
+		pm := newMach(c)
+		pm.maxSteps = 3000000
+		c.namexAutoHistories(pm, note)
+	}()
 	for _, kind := range []string{"functions", "variables"} {
 		for _, whose := range []string{"default", "supplied"} {
 			kind, whose := kind, whose
@@ -160,32 +236,16 @@ func (c *Ctx) namexRun() *nameVerdicts {
 		for src := range quotedIdent {
 			exprs = append(exprs, src)
 		}
+		exprs = append(exprs, namexKeywordSentences()...)
 		sort.Strings(exprs)
 		for _, e := range exprs {
 			ls := lexemes(e)
 			if ref, ok := quotedIdent[e]; ok {
 				ls = lexemes(ref)
 			}
-			acc, rpn := gxReference(ls)
+			want, acc := refIdentifiers(ls)
 			if !acc {
 				continue
-			}
-			type occ struct {
-				col  int
-				name string
-			}
-			var occs []occ
-			for _, t := range rpn {
-				if strings.HasPrefix(t, "Variable@") {
-					var col int
-					fmt.Sscanf(t, "Variable@%d", &col)
-					occs = append(occs, occ{col, ls[col-1].text})
-				}
-			}
-			sort.Slice(occs, func(i, j int) bool { return occs[i].col < occs[j].col })
-			var want []string
-			for _, o := range occs {
-				want = append(want, o.name)
 			}
 			m.steps = 0
 			noteSample("NAME.model/expressions", e)
@@ -264,16 +324,32 @@ func (c *Ctx) namexRun() *nameVerdicts {
 	ct := resultType(cctor)
 	newVar := c.MustFunc("calculator/variables", "", "NewVariable")
 	vfi := c.MustFunc(pkgVariants, "", "VariantFromInteger")
-	for _, tc := range []struct {
+	type autoCase struct {
 		pre  []string
 		expr string
 		want []string
-	}{
+	}
+	autoCases := []autoCase{
 		{nil, "a + b + A", []string{"a", "b"}},
 		{[]string{"B"}, "a + b + A", []string{"b", "a"}},
 		{[]string{"x", "A"}, "f ( a ) + y", []string{"x", "a", "y"}},
 		{[]string{"q"}, "1 + 2", []string{"q"}},
-	} {
+	}
+	// keywords in every letter case get no entry: exactly the identifiers do (every second sentence with one
+	// of its identifiers already there)
+	for i, e := range namexKeywordSentences() {
+		ids, ok := refIdentifiers(lexemes(e))
+		if !ok {
+			continue
+		}
+		tc := autoCase{expr: e}
+		if i%2 == 1 && len(ids) > 0 {
+			tc.pre = []string{strings.ToUpper(ids[len(ids)-1])}
+		}
+		tc.want = foldUnique(append(append([]string{}, tc.pre...), ids...))
+		autoCases = append(autoCases, tc)
+	}
+	for _, tc := range autoCases {
 		m.steps = 0
 		calc, out := m.Call(cctor)
 		if out.kind != "ok" {
@@ -1254,6 +1330,209 @@ func (c *Ctx) namexHistories(m *mach, kind, whose string, note func(k, bad, unde
 	}
 }
 
+// ---- (9) automatic variables follow the default collection as it is now ----------------------------------
+//
+// "After an expression is set, with automatic variables on the default collection ends up with exactly one
+// entry per variable name": whatever happened to the calculator before. One calculator; an expression is set
+// (automatic variables on or off); the default collection is changed by its owner (cleared, one entry removed
+// by name or by index, an entry given a value, a foreign entry added) and / or the switch is turned; an
+// expression is set again - the very same text, the same text in another letter case, another text. Then the
+// collection holds the entries it held before that call, values untouched, followed by one entry per
+// identifier of the text that it lacked (none with the switch off), and with the switch on an evaluation
+// does not miss a variable.
+func (c *Ctx) namexAutoHistories(m *mach, note func(k, bad, undec string)) {
+	const key = "auto-variables-histories"
+	cctor := c.MustFunc(pkgCalc, "", "NewExpressionCalculator")
+	ct := resultType(cctor)
+	newVar := c.MustFunc("calculator/variables", "", "NewVariable")
+	vfi := c.MustFunc(pkgVariants, "", "VariantFromInteger")
+	type entry struct {
+		name string
+		val  mv // a value the history gave it (nil: whatever it has)
+	}
+	first := "a + B * c"
+	seconds := []string{first, "A + b * C", "b - d", "1 + 2"}
+	muts := []string{"nothing", "Clear()", "RemoveByName(\"b\")", "RemoveByName(\"C\")", "Remove(0)", "Get(0).SetValue(5)", "Add(z=7)", "Clear(), Add(B=7)"}
+	for _, auto0 := range []bool{true, false} {
+		for _, auto1 := range []bool{true, false} {
+			for _, mut := range muts {
+				for _, second := range seconds {
+					m.steps = 0
+					calc, out := m.Call(cctor)
+					if out.kind != "ok" {
+						note(key, "", "NewExpressionCalculator: "+out.why)
+						return
+					}
+					var hist []string
+					undec, bad := "", ""
+					step := func(what string, o mOutcome) {
+						hist = append(hist, what)
+						if o.kind == "panic" && bad == "" {
+							bad = fmt.Sprintf("one calculator: %s panics: %s", strings.Join(hist, ", "), o.why)
+						} else if o.kind != "ok" && undec == "" {
+							undec = strings.Join(hist, ", ") + ": " + o.why
+						}
+					}
+					set := func(text string) {
+						r, o := callM(c, m, ct, "SetExpression", calc, text)
+						step(fmt.Sprintf("SetExpression(%q)", text), o)
+						if o.kind == "ok" {
+							if _, isNil := r.(mNilT); !isNil && bad == "" {
+								bad = fmt.Sprintf("one calculator: after %s the well-formed expression is refused with %s", strings.Join(hist, ", "), errorCode(r))
+							}
+						}
+					}
+					var model []entry
+					create := func(text string, auto bool) {
+						ids, _ := refIdentifiers(lexemes(text))
+						for _, id := range ids {
+							have := false
+							for _, e := range model {
+								have = have || strings.EqualFold(e.name, id)
+							}
+							if auto && !have {
+								model = append(model, entry{name: id})
+							}
+						}
+					}
+					if !auto0 {
+						_, o := callM(c, m, ct, "SetAutoVariables", calc, false)
+						step("SetAutoVariables(false)", o)
+					}
+					set(first)
+					create(first, auto0)
+					dv, o := callM(c, m, ct, "DefaultVariables", calc)
+					col, ok := dv.(mIface)
+					if o.kind != "ok" || !ok {
+						note(key, "", "DefaultVariables: "+o.why)
+						continue
+					}
+					addVar := func(name string, n int64) {
+						val, _ := m.Call(vfi, n)
+						vr, o := m.Call(newVar, name, val)
+						if o.kind == "ok" {
+							_, o = callM(c, m, col.t, "Add", col.v, mIface{t: resultType(newVar), v: vr})
+						}
+						step(fmt.Sprintf("DefaultVariables().Add(%s=%d)", name, n), o)
+						model = append(model, entry{name, val})
+					}
+					removeNamed := func(name string) {
+						_, o := callM(c, m, col.t, "RemoveByName", col.v, name)
+						step(fmt.Sprintf("DefaultVariables().RemoveByName(%q)", name), o)
+						for i, e := range model {
+							if strings.EqualFold(e.name, name) {
+								model = append(append([]entry{}, model[:i]...), model[i+1:]...)
+								break
+							}
+						}
+					}
+					switch mut {
+					case "Clear()":
+						_, o := callM(c, m, col.t, "Clear", col.v)
+						step("DefaultVariables().Clear()", o)
+						model = nil
+					case "RemoveByName(\"b\")":
+						removeNamed("b")
+					case "RemoveByName(\"C\")":
+						removeNamed("C")
+					case "Remove(0)":
+						if len(model) == 0 {
+							continue // nothing to remove: the history does not exist
+						}
+						_, o := callM(c, m, col.t, "Remove", col.v, int64(0))
+						step("DefaultVariables().Remove(0)", o)
+						model = model[1:]
+					case "Get(0).SetValue(5)":
+						if len(model) == 0 {
+							continue
+						}
+						val, _ := m.Call(vfi, int64(5))
+						e, o := callM(c, m, col.t, "Get", col.v, int64(0))
+						if ei, ok := e.(mIface); ok && o.kind == "ok" {
+							_, o = callM(c, m, ei.t, "SetValue", ei.v, val)
+						}
+						step("DefaultVariables().Get(0).SetValue(5)", o)
+						model[0].val = val
+					case "Add(z=7)":
+						addVar("z", 7)
+					case "Clear(), Add(B=7)":
+						_, o := callM(c, m, col.t, "Clear", col.v)
+						step("DefaultVariables().Clear()", o)
+						model = nil
+						addVar("B", 7)
+					}
+					if auto1 != auto0 {
+						_, o := callM(c, m, ct, "SetAutoVariables", calc, auto1)
+						step(fmt.Sprintf("SetAutoVariables(%v)", auto1), o)
+					}
+					set(second)
+					create(second, auto1)
+					if bad != "" || undec != "" {
+						note(key, bad, undec)
+						continue
+					}
+					names, vals, why := collectionEntries(c, m, col)
+					if why != "" {
+						note(key, "", strings.Join(hist, ", ")+": "+why)
+						continue
+					}
+					var want []string
+					for _, e := range model {
+						want = append(want, e.name)
+					}
+					same := len(names) == len(want)
+					for i := 0; same && i < len(names); i++ {
+						same = strings.EqualFold(names[i], want[i])
+					}
+					onoff := map[bool]string{true: "on", false: "off"}[auto1]
+					switch {
+					case !same:
+						bad = fmt.Sprintf("one calculator: after %s the default collection holds %q; automatic variables are %s, so it holds what it held before the last call plus one entry per identifier of %q that it lacked: %q", strings.Join(hist, ", "), names, onoff, second, want)
+					default:
+						for i, e := range model {
+							if e.val != nil && i < len(vals) {
+								if eq, known := m.equal(e.val, vals[i]); !known || !eq {
+									bad = fmt.Sprintf("one calculator: after %s the variable %q no longer has the value it was given: an entry that is already there is kept as it is", strings.Join(hist, ", "), e.name)
+								}
+							}
+						}
+					}
+					if bad == "" {
+						ids, _ := refIdentifiers(lexemes(second))
+						ev, o := callM(c, m, ct, "Evaluate", calc)
+						tp, ok := ev.(mTuple)
+						switch {
+						case o.kind == "panic":
+							bad = fmt.Sprintf("one calculator: after %s evaluating panics: %s", strings.Join(hist, ", "), o.why)
+						case o.kind != "ok" || !ok || len(tp) != 2:
+							undec = strings.Join(hist, ", ") + ", Evaluate: " + o.why
+						case auto1 && errorCode(tp[1]) == "VAR_NOT_FOUND":
+							bad = fmt.Sprintf("one calculator: after %s evaluating reports VAR_NOT_FOUND (%s); automatic variables are on, every identifier of the expression has an entry since the expression was set", strings.Join(hist, ", "), errorField(tp[1], "Message"))
+						case !auto1 && len(foldUnique(ids)) > len(foldUniqueOf(want, ids)) && errorCode(tp[1]) != "VAR_NOT_FOUND":
+							bad = fmt.Sprintf("one calculator: after %s evaluating gives %s %s; automatic variables are off and the collection %q lacks a variable of %q, which must be reported (VAR_NOT_FOUND)", strings.Join(hist, ", "), mRender(tp[0]), errorCode(tp[1]), want, second)
+						}
+					}
+					note(key, bad, undec)
+				}
+			}
+		}
+	}
+}
+
+// foldUniqueOf: the names of ids (case-insensitively, once each) that occur in have.
+func foldUniqueOf(have, ids []string) []string {
+	var out []string
+	for _, id := range foldUnique(ids) {
+		for _, h := range have {
+			if strings.EqualFold(h, id) {
+				out = append(out, id)
+				break
+			}
+		}
+	}
+	return out
+}
+
 func renderEntries(model []listEntry) string {
 	if len(model) == 0 {
 		return "no entry of that name"
@@ -1327,7 +1606,7 @@ func errorField(errv mv, field string) string {
 
 func init() {
 	register(&Rule{ID: "NAME.model", Floor: 7,
-		Doc: "variable discovery in expressions and templates (VariableNames after ParseString), automatic variables (default collections after SetExpression/SetTemplate with entries already present), the collections as ordered lists (every sequence of three of add/remove/remove-by-name/locate/clear/clear-values, FindIndexByName probes after every step) and resolution (first added wins case-insensitively; VAR_NOT_FOUND / FUNC_NOT_FOUND name the missing identifier; every three-step history of evaluations and collection changes on one calculator), identifiers whose case mappings are not one-to-one and the empty quoted identifier, evaluated abstractly through the exported API against the list model",
+		Doc: "variable discovery in expressions and templates (VariableNames after ParseString), automatic variables (default collections after SetExpression/SetTemplate with entries already present), the collections as ordered lists (every sequence of three of add/remove/remove-by-name/locate/clear/clear-values, FindIndexByName probes after every step) and resolution (first added wins case-insensitively; VAR_NOT_FOUND / FUNC_NOT_FOUND name the missing identifier; every three-step history of evaluations and collection changes on one calculator; automatic variables after the default collection was cleared / shortened / extended / given values or the switch was turned between two SetExpression calls with the same text, the same text in another letter case or another text), identifiers whose case mappings are not one-to-one and the empty quoted identifier, evaluated abstractly through the exported API against the list model",
 		Run: func(c *Ctx) []*Obligation {
 			o := newObl("NAME.model")
 			nv := c.namexRun()
@@ -1341,6 +1620,7 @@ func init() {
 				"resolution":                     c.Pos(c.MustFunc(pkgCalc, "ExpressionCalculator", "EvaluateUsingVariablesAndFunctions").Pos()),
 				"case-mappings":                  c.Pos(c.MustFunc(pkgCalc, "ExpressionCalculator", "SetExpression").Pos()),
 				"empty-identifier":               c.Pos(c.MustFunc(pkgCalc, "ExpressionCalculator", "CreateVariables").Pos()),
+				"auto-variables-histories":       c.Pos(c.MustFunc(pkgCalc, "ExpressionCalculator", "SetExpression").Pos()),
 				"resolution-histories-functions": c.Pos(c.MustFunc(pkgCalc, "ExpressionCalculator", "EvaluateUsingVariablesAndFunctions").Pos()),
 				"resolution-histories-variables": c.Pos(c.MustFunc(pkgCalc, "ExpressionCalculator", "EvaluateUsingVariables").Pos()),
 			}
